@@ -133,6 +133,10 @@ def check_function(ctx, where, node, label, is_template=False):
                 if isinstance(f, ast.Name) and f.id in ('isinstance', 'type', 'repr', 'id') and isinstance(p, ast.Call):
                     ctx.holds(rule, where, st, 'type inspection only', line, clause='a')
                     continue
+                cn = call_name(call) or ''
+                if (isinstance(f, ast.Attribute) and f.attr in ('unpack_from', 'iter_unpack')) or cn in ('memoryview', 'bytes', 'bytearray', 'int.from_bytes', 'struct.unpack_from', 'struct.iter_unpack', 'io.BytesIO', 'BytesIO'):
+                    ctx.violation(rule, where, st, 'the whole input object is handed to %s, which reads it through the buffer protocol, not through slicing: the documented file-backed input (util.SeekableFile, a bytes subclass that serves slices from the file) is empty at that level, so unpack(file, offset) fails or differs from unpack(file[offset:])' % (cn or f.attr), line, clause='a', witness=True)
+                    continue
                 has_offset = any(k.arg == 'offset' for k in call.keywords) or any(isinstance(a, ast.Name) and a.id == 'offset' for a in call.args) \
                     or any(k.arg is None for k in call.keywords)
                 if isinstance(p, ast.keyword) and p.arg not in ('raw',):
